@@ -374,6 +374,18 @@ struct Handle {
     log: Vec<u8>,
 }
 
+/// Sizes at which buffered, strided or multi-buffer implementations switch paths (4 KiB, 16 KiB, 64 KiB, 128 KiB,
+/// 256 KiB, 1 MiB, each with its neighbours); used rarely, by every scenario that moves bulk data
+pub fn big_len(rng: &mut Rng, very: bool) -> usize {
+    const MENU: [usize; 15] = [4095, 4096, 4097, 16383, 16384, 16385, 65535, 65536, 65537, 131071, 131072, 131073, 262144, 262145, 300000];
+    const VERY: [usize; 4] = [1 << 20, (1 << 20) + 1, (1 << 20) - 1, 1_500_000];
+    if very && rng.chance(1, 4) {
+        *rng.pick(&VERY)
+    } else {
+        *rng.pick(&MENU)
+    }
+}
+
 /// Chunk menu built from the variant's own block size / rate (DESIGN §2.3)
 pub fn chunk_len(rng: &mut Rng, b: usize, fill: usize, big_ok: bool) -> usize {
     let rem = b - (fill % b);
@@ -398,7 +410,11 @@ pub fn chunk_len(rng: &mut Rng, b: usize, fill: usize, big_ok: bool) -> usize {
         17 => rem + b - 1,
         18 => {
             if big_ok && rng.chance(1, 8) {
-                rng.range(1, 65536) as usize
+                if rng.chance(1, 6) {
+                    { let very = rng.chance(1, 8); big_len(rng, very) }
+                } else {
+                    rng.range(1, 65536) as usize
+                }
             } else {
                 rng.below(4 * b as u64) as usize
             }
@@ -484,7 +500,7 @@ impl HashCtx {
                     } else {
                         chunk_len(rng, b, fill, big_ok)
                     };
-                    if total + len > 256 * 1024 {
+                    if total + len > 2 * 1024 * 1024 {
                         len = 1;
                     }
                     total += len;
